@@ -394,8 +394,6 @@ theorem consolidate_preserves_behaviour : ∀ (rs : List Route) (k : K), runRout
       rw [handlers_chain_in_order']
     · simp only [runRoutes, ih]
 
-/-! ### `handle` blocks: kernel-checked instances (the general statement is checked by the oracle) -/
-
 /-- `handle /a/b { handle /a/b { respond 201 }  handle { respond 202 }  respond 203 }
      handle /a { respond 204 }   handle { handle /c { respond 205 } }   respond 206` -/
 def wHandleSite : List Node :=
@@ -403,6 +401,318 @@ def wHandleSite : List Node :=
     .handle (some 1) [.respond 204],
     .handle none [.handle (some 4) [.respond 205]],
     .respond 206 ]
+
+/-! ### a site of `handle` blocks means what it says -/
+
+def nodeMatches : Option Nat → Nat → Bool
+  | none, _ => true
+  | some q, p => [q].contains p
+
+mutual
+/-- the Caddyfile read as written: `(answer, has a handle of this body been evaluated now?)` -/
+def evalNode : Node → Bool → Nat → Option Nat × Bool
+  | .respond st, taken, _ => (some st, taken)
+  | .handle q body, taken, p =>
+    if taken || !nodeMatches q p then (none, taken) else (evalNodes body false p, true)
+/-- of the `handle` blocks of one body only the first whose matcher matches is evaluated; what it
+    does not answer goes on to the `respond` behind the blocks, then up -/
+def evalNodes : List Node → Bool → Nat → Option Nat
+  | [], _, _ => none
+  | n :: ns, taken, p =>
+    match evalNode n taken p with
+    | (some st, _) => some st
+    | (none, tk) => evalNodes ns tk p
+end
+
+mutual
+def nodesNoHints : List Node → Bool
+  | [] => true
+  | n :: ns => nodeNoHints n && nodesNoHints ns
+def nodeNoHints : Node → Bool
+  | .respond st => st != 103
+  | .handle _ body => nodesNoHints body
+end
+
+/-- the marked groups avoid the names `(lo, hi]` -/
+def Disj (gs : List Nat) (lo hi : Nat) : Prop := ∀ x ∈ gs, x ≤ lo ∨ hi < x
+
+/-- `r'` is `r` with more groups marked, all of them in `(lo, hi]` or the (non-empty) name `g` -/
+def Ext (r r' : Req) (lo hi g : Nat) : Prop :=
+  r'.path = r.path ∧ (∀ x ∈ r.groups, x ∈ r'.groups) ∧
+    (∀ x ∈ r'.groups, x ∈ r.groups ∨ (lo < x ∧ x ≤ hi) ∨ (x = g ∧ g ≠ 0))
+
+theorem Ext.refl (r : Req) (lo hi g : Nat) : Ext r r lo hi g :=
+  ⟨rfl, fun _ h => h, fun _ h => Or.inl h⟩
+
+theorem adaptNode_mono (n : Node) (c : Nat) : c ≤ (adaptNode n c).2 := (adaptNode_fresh n c).1
+theorem adaptNodes_mono (ns : List Node) (c : Nat) : c ≤ (adaptNodes ns c).2 := (adaptNodes_fresh ns c).1
+
+/-- the outcome of a list of adapted directives in any chain: answered, or passed on with only
+    fresh groups marked -/
+def Outcome (res : Option Nat) (out : Out) (k : K) (r : Req) (t : Trace) (lo hi g : Nat) (P : Req → Prop) : Prop :=
+  match res with
+  | some st => out = .done t (some st)
+  | none => ∃ r', out = k r' t ∧ Ext r r' lo hi g ∧ P r'
+
+mutual
+theorem adaptNode_sem : ∀ (n : Node) (c g : Nat) (taken : Bool) (k : K) (r : Req) (t : Trace),
+    nodeNoHints n = true →
+    Disj r.groups c (adaptNode n c).2 →
+    (g ≠ 0 → (adaptNode n c).2 < g ∧ (taken = true ↔ g ∈ r.groups)) →
+    (g = 0 → n.isHandle = true → taken = false) →
+    Outcome (evalNode n taken r.path).1
+      (runRoute (if n.isHandle then (adaptNode n c).1.withGroup g else (adaptNode n c).1) k r t) k r t
+      c (adaptNode n c).2 g
+      (fun r' => g ≠ 0 → ((evalNode n taken r.path).2 = true ↔ g ∈ r'.groups))
+  | .respond st, c, g, taken, k, r, t, hh, hd, hg, h0 => by
+    simp only [nodeNoHints, bne_iff_ne, ne_eq] at hh
+    simp [adaptNode, Node.isHandle, evalNode, Outcome, runRoute, anyMatch, groupDone, markGroup,
+      runHandlers, runHandler, answerStep, Src.resolve, hh]
+  | .handle q body, c, g, taken, k, r, t, hh, hd, hg, h0 => by
+    simp only [nodeNoHints] at hh
+    have hfb := adaptNodes_fresh body c
+    have ihb := adaptNodes_sem body c
+    simp only [adaptNode, Node.isHandle, if_true, Route.withGroup] at hd hg ⊢
+    generalize hb : adaptNodes body c = resb at hd hg hfb ihb ⊢
+    obtain ⟨rsb, cb⟩ := resb
+    simp only at hd hg hfb ihb ⊢
+    have hdg := drawGroups_bounds (body.filter Node.isHandle).length cb
+    generalize hdr : drawGroups (body.filter Node.isHandle).length cb = dg at hd hg hdg ⊢
+    obtain ⟨gb, c2⟩ := dg
+    simp only at hd hg hdg ⊢
+    -- does the block's matcher match?
+    have hm : anyMatch (handleSets q) r = .ok (nodeMatches q r.path) := by
+      cases q with
+      | none => simp [handleSets, anyMatch, nodeMatches]
+      | some v =>
+        simp only [handleSets, anyMatch, List.isEmpty_cons, Bool.false_eq_true, if_false, evalAny, evalSet,
+          evalMatcher, nodeMatches, Req.get]
+        cases ([v].contains r.path) <;> rfl
+    simp only [evalNode, runRoute, hm]
+    cases hmt : nodeMatches q r.path with
+    | false =>
+      simp only [Bool.not_false, Bool.or_true, if_true, Outcome]
+      exact ⟨r, rfl, Ext.refl _ _ _ _, fun hne => (hg hne).2⟩
+    | true =>
+      simp only [Bool.not_true, Bool.or_false]
+      cases htk : taken with
+      | true =>
+        have hgne : g ≠ 0 := fun h => by have := h0 h rfl; rw [htk] at this; cases this
+        have hin : g ∈ r.groups := ((hg hgne).2).mp htk
+        have hgd : groupDone g r = true := by simp [groupDone, hgne, hin]
+        simp only [if_true, hgd, Outcome]
+        exact ⟨r, rfl, Ext.refl _ _ _ _, fun _ => by first | exact iff_of_true rfl hin | exact iff_of_true trivial hin | simpa using hin⟩
+      | false =>
+        have hnotin : g ≠ 0 → g ∉ r.groups := fun hne hin => by
+          have := ((hg hne).2).mpr hin; rw [htk] at this; cases this
+        have hgd : groupDone g r = false := by
+          by_cases hne : g = 0
+          · simp [groupDone, hne]
+          · simp [groupDone, hne, hnotin hne]
+        simp only [Bool.false_eq_true, if_false, hgd, runHandlers]
+        rw [runHandler_sub_without_errors, consolidate_preserves_behaviour]
+        -- inside the block
+        have hcb : cb < c2 := hdg.1
+        have hdisj1 : Disj (markGroup g r).groups c cb := by
+          intro x hx
+          unfold markGroup at hx
+          split at hx
+          · rename_i hne
+            simp only [List.mem_cons] at hx
+            rcases hx with hx | hx
+            · right; have := (hg (by simpa using hne)).1; omega
+            · rcases hd x hx with h | h
+              · exact Or.inl h
+              · right; omega
+          · rcases hd x hx with h | h
+            · exact Or.inl h
+            · right; omega
+        have hgb : gb ≠ 0 → cb < gb ∧ (false = true ↔ gb ∈ (markGroup g r).groups) := by
+          intro hne
+          rcases hdg.2 with h | h
+          · exact absurd h hne
+          · refine ⟨h.1, ⟨fun hf => (by cases hf), fun hin => ?_⟩⟩
+            exfalso
+            have hc := hfb.1
+            unfold markGroup at hin
+            split at hin
+            · rename_i hne'
+              simp only [List.mem_cons] at hin
+              rcases hin with hin | hin
+              · have := (hg (by simpa using hne')).1; omega
+              · rcases hd gb hin with h1 | h1 <;> omega
+            · rcases hd gb hin with h1 | h1 <;> omega
+        have hgb0 : gb = 0 → ((body.filter Node.isHandle).length ≤ if false = true then 0 else 1) := by
+          intro h0'
+          unfold drawGroups at hdr
+          split at hdr
+          · simp at hdr; omega
+          · simp; omega
+        have hin := ihb gb false k (markGroup g r) t hh hdisj1 hgb hgb0
+        have hp : (markGroup g r).path = r.path := by unfold markGroup; split <;> rfl
+        rw [hp] at hin
+        cases hev : evalNodes body false r.path with
+        | some st =>
+          rw [hev] at hin
+          simpa [Outcome] using hin
+        | none =>
+          rw [hev] at hin
+          simp only [Outcome] at hin ⊢
+          obtain ⟨r2, he, hext, _⟩ := hin
+          refine ⟨r2, he, ⟨by rw [hext.1, hp], ?_, ?_⟩, ?_⟩
+          · intro x hx
+            exact hext.2.1 x (markGroup_groups g r x hx)
+          · intro x hx
+            rcases hext.2.2 x hx with h | h | h
+            · unfold markGroup at h
+              split at h
+              · rename_i hne
+                simp only [List.mem_cons] at h
+                rcases h with h | h
+                · exact Or.inr (Or.inr ⟨h, by simpa using hne⟩)
+                · exact Or.inl h
+              · exact Or.inl h
+            · exact Or.inr (Or.inl ⟨h.1, by omega⟩)
+            · right; left
+              rcases hdg.2 with h' | h'
+              · exact absurd h' h.2
+              · rw [h.1]; have := hfb.1; omega
+          · intro hne
+            have hmem : g ∈ r2.groups := by
+              apply hext.2.1
+              unfold markGroup
+              simp [hne]
+            first | exact iff_of_true rfl hmem | exact iff_of_true trivial hmem | simpa using hmem
+theorem adaptNodes_sem : ∀ (ns : List Node) (c g : Nat) (taken : Bool) (k : K) (r : Req) (t : Trace),
+    nodesNoHints ns = true →
+    Disj r.groups c (adaptNodes ns c).2 →
+    (g ≠ 0 → (adaptNodes ns c).2 < g ∧ (taken = true ↔ g ∈ r.groups)) →
+    (g = 0 → (ns.filter Node.isHandle).length ≤ if taken = true then 0 else 1) →
+    Outcome (evalNodes ns taken r.path)
+      (runRoutes (setGroups g ns (adaptNodes ns c).1) k r t) k r t c (adaptNodes ns c).2 g (fun _ => True)
+  | [], c, g, taken, k, r, t, _, _, _, _ => by
+    simp only [adaptNodes, setGroups, runRoutes, evalNodes, Outcome]
+    exact ⟨r, rfl, Ext.refl _ _ _ _, trivial⟩
+  | n :: ns, c, g, taken, k, r, t, hh, hd, hg, h0 => by
+    simp only [nodesNoHints, Bool.and_eq_true] at hh
+    have ihn := adaptNode_sem n c g taken
+    have hmn := adaptNode_mono n c
+    simp only [adaptNodes] at hd hg ⊢
+    generalize hn : adaptNode n c = r1 at hd hg ihn hmn ⊢
+    obtain ⟨rt, c1⟩ := r1
+    have ihs := adaptNodes_sem ns c1 g
+    have hms := adaptNodes_mono ns c1
+    generalize hns : adaptNodes ns c1 = r2 at hd hg ihs hms ⊢
+    obtain ⟨rts, c2⟩ := r2
+    simp only at hd hg ihn ihs hmn hms ⊢
+    simp only [setGroups, runRoutes, evalNodes]
+    have hd1 : Disj r.groups c c1 := fun x hx => by
+      rcases hd x hx with h | h
+      · exact Or.inl h
+      · right; omega
+    have hg1 : g ≠ 0 → c1 < g ∧ (taken = true ↔ g ∈ r.groups) := fun hne => ⟨by have := (hg hne).1; omega, (hg hne).2⟩
+    have h01 : g = 0 → n.isHandle = true → taken = false := by
+      intro hz hnh
+      have := h0 hz
+      cases htk : taken with
+      | false => rfl
+      | true =>
+        rw [htk] at this
+        simp [List.filter, hnh] at this
+    have hnode := ihn (runRoutes (setGroups g ns rts) k) r t hh.1 hd1 hg1 h01
+    cases hev : evalNode n taken r.path with
+    | mk res tk =>
+      rw [hev] at hnode
+      cases res with
+      | some st => simpa [Outcome] using hnode
+      | none =>
+        simp only [Outcome] at hnode ⊢
+        obtain ⟨r', he, hext, htk⟩ := hnode
+        rw [he]
+        have hd2 : Disj r'.groups c1 c2 := by
+          intro x hx
+          rcases hext.2.2 x hx with h | h | h
+          · rcases hd x h with h' | h'
+            · left; omega
+            · exact Or.inr h'
+          · left; omega
+          · right; rw [h.1]; exact (hg h.2).1
+        have hg2 : g ≠ 0 → c2 < g ∧ (tk = true ↔ g ∈ r'.groups) := fun hne => ⟨(hg hne).1, htk hne⟩
+        have h02 : g = 0 → (ns.filter Node.isHandle).length ≤ if tk = true then 0 else 1 := by
+          intro hz
+          have hc := h0 hz
+          cases hnh : n.isHandle with
+          | false =>
+            -- a respond never passes on: `res = none` is impossible
+            cases n with
+            | respond st => simp [evalNode] at hev
+            | handle q b => simp [Node.isHandle] at hnh
+          | true =>
+            have htf := h01 hz hnh
+            rw [htf] at hc
+            simp only [List.filter, hnh, List.length_cons, Bool.false_eq_true, if_false] at hc
+            have : (ns.filter Node.isHandle).length = 0 := by omega
+            rw [this]; split <;> omega
+        have hrest := ihs tk k r' t hh.2 hd2 hg2 h02
+        rw [hext.1] at hrest
+        cases hev2 : evalNodes ns tk r.path with
+        | some st =>
+          rw [hev2] at hrest
+          simpa [Outcome] using hrest
+        | none =>
+          rw [hev2] at hrest
+          simp only [Outcome] at hrest ⊢
+          obtain ⟨r'', he2, hext2, _⟩ := hrest
+          refine ⟨r'', he2, ⟨by rw [hext2.1, hext.1], fun x hx => hext2.2.1 x (hext.2.1 x hx), ?_⟩, trivial⟩
+          intro x hx
+          rcases hext2.2.2 x hx with h | h | h
+          · rcases hext.2.2 x h with h' | h' | h'
+            · exact Or.inl h'
+            · exact Or.inr (Or.inl ⟨h'.1, by omega⟩)
+            · exact Or.inr (Or.inr h')
+          · exact Or.inr (Or.inl ⟨by omega, h.2⟩)
+          · exact Or.inr (Or.inr h)
+end
+
+/-- **a site of `handle` blocks means what it says**: through the adapter's group names, its
+    consolidation of routes and the request-global group set, a site of nested `handle` blocks
+    answers every request with exactly what the Caddyfile read as written prescribes — of the
+    `handle` blocks of one body only the first whose matcher matches is evaluated, at every level. -/
+theorem handle_site_behaves_as_written (ns : List Node) (req : Req) (hh : nodesNoHints ns = true) :
+    serve (adaptSite ns) false [] req = ⟨[], evalNodes ns false req.path⟩ := by
+  unfold adaptSite serve
+  have hsem := adaptNodes_sem ns 0
+  generalize hn : adaptNodes ns 0 = res at hsem
+  obtain ⟨rs, c1⟩ := res
+  simp only at hsem ⊢
+  rw [consolidate_preserves_behaviour]
+  have hdg := drawGroups_bounds (ns.filter Node.isHandle).length c1
+  generalize hdr : drawGroups (ns.filter Node.isHandle).length c1 = dg at hdg ⊢
+  obtain ⟨g, c2⟩ := dg
+  simp only at hdg ⊢
+  have h := hsem g false emptyK { req with groups := [], ctxErr := none, replStatus := none } [] hh
+    (fun x hx => by simp at hx)
+    (fun hne => by
+      rcases hdg.2 with h | h
+      · exact absurd h hne
+      · exact ⟨h.1, ⟨fun hf => (by cases hf), fun hin => (by simp at hin)⟩⟩)
+    (fun hz => by
+      unfold drawGroups at hdr
+      split at hdr
+      · simp at hdr; omega
+      · simp; omega)
+  simp only at h
+  cases hev : evalNodes ns false req.path with
+  | some st => rw [hev] at h; simp only [Outcome] at h; simp [h]
+  | none =>
+    rw [hev] at h
+    simp only [Outcome] at h
+    obtain ⟨r', he, _, _⟩ := h
+    simp [he, emptyK]
+
+example : evalNodes wHandleSite false 2 = some 201 ∧ evalNodes wHandleSite false 3 = some 206 := by decide
+
+/-! ### `handle` blocks: kernel-checked instances (the general statement is checked by the oracle) -/
 
 -- the group names the adapter draws (group2 inside, group7 outside; a lone handle gets none)
 example : allGroups (adaptSite wHandleSite) = [8, 3, 0, 3, 0, 0, 8, 0, 8, 0, 0, 0] := by decide
